@@ -2,7 +2,7 @@
 from ._amount_units import TYPES, SINGLE, POSTING, AMOUNT, opaque
 from ._balance_units import BALANCE_TYPES, BALANCE
 from ._eval_units import EXPR_TYPES, EVALUATED_TYPE, EVALUATED
-from ._bookkeep_units import BK_TYPES, BOOKKEEP
+from ._bookkeep_units import BK_TYPES, BOOKKEEP, DECL_TYPES
 
 GROUP = {
     "name": "bookkeep",
@@ -22,6 +22,7 @@ GROUP = {
         *EXPR_TYPES, *EVALUATED_TYPE,
         ("text", "evaluated_spec.rs"),
         *opaque(EVALUATED),
+        *DECL_TYPES,
         ("text", "syntax_stub.rs"),
         *BK_TYPES,
         *BOOKKEEP,
